@@ -76,3 +76,57 @@ func TestGovcReplayFailedIBTP(t *testing.T) {
 	}
 	fmt.Println("REPLAY-NOT-CONFIRMED the failed transaction left no contract state")
 }
+
+func TestGovcReplayFailedIBTPAnnounced(t *testing.T) {
+	if os.Getenv("GOVC_REPLAY_INPUT") == "" {
+		t.Skip("no replay input")
+	}
+	repoRoot, _ := ioutil.TempDir("", "f7")
+	defer os.RemoveAll(repoRoot)
+	blockchainStorage, _ := leveldb.New(filepath.Join(repoRoot, "storage"))
+	ldb, _ := leveldb.New(filepath.Join(repoRoot, "ledger"))
+	accountCache, _ := ledger.NewAccountCache()
+	blockFile, _ := blockfile.NewBlockFile(repoRoot, log.NewWithModule("replay"))
+	ldg, err := ledger.New(createMockRepo(t), blockchainStorage, ldb, blockFile, accountCache, log.NewWithModule("ledger"))
+	if err != nil {
+		t.Fatal(err)
+	}
+	config := generateMockConfig(t)
+	config.Executor.EnableAudit = true
+	exec, err := New(ldg, log.NewWithModule("executor"), &appchain.Client{}, config, big.NewInt(0))
+	if err != nil {
+		t.Fatal(err)
+	}
+	ic := constant.InterchainContractAddr.Address()
+	ldg.PrepareBlock(types.NewHash([]byte{1}), 2)
+	ldg.SetState(ic, []byte(contracts.BitXHubID), []byte("1356"), nil)
+	exec.serviceCache.Store("chain0:svc0", &service_mgr.Service{ChainID: "chain0", ServiceID: "svc0", Status: governance.GovernanceAvailable, Ordered: true})
+	from := types.NewAddressByStr("0x1000000000000000000000000000000000000001")
+	ldg.SetBalance(from, big.NewInt(1000000))
+	ldg.Finalise(true)
+
+	srcKey := []byte("service-1356:chain0:svc0")
+	okBefore, _ := ldg.GetState(ic, srcKey)
+	ibtp := &pb.IBTP{From: "1356:chain0:svc0", To: "1356:1356:svcX", Index: 1, Type: pb.IBTP_INTERCHAIN, TimeoutHeight: 10, Payload: []byte("p")}
+	tx := &pb.BxhTransaction{From: from, To: ic, IBTP: ibtp, Nonce: 0}
+	tx.TransactionHash = tx.Hash()
+	exec.currentHeight = 1
+	receipt := exec.txsExecutor.ApplyTransactions([]pb.Transaction{tx}, nil)[0]
+	counter := exec.txsExecutor.GetInterchainCounter()
+	okAfter, val := ldg.GetState(ic, srcKey)
+	_, _, _ = okAfter, val, okBefore
+	validAnnounced := 0
+	for _, list := range counter {
+		for _, vi := range list {
+			if vi.Valid {
+				validAnnounced++
+			}
+		}
+	}
+	fmt.Printf("replay: receipt status=%v ret=%q; interchain counter of the block after the failed transaction: %v\n", receipt.Status, string(receipt.Ret), counter)
+	if receipt.Status == pb.Receipt_FAILED && validAnnounced > 0 {
+		fmt.Println("REPLAY-CONFIRMED a transaction with a FAILED receipt is listed as a valid interchain delivery in the block's counter")
+		return
+	}
+	fmt.Println("REPLAY-NOT-CONFIRMED the failed transaction is not announced as a valid delivery")
+}
